@@ -120,12 +120,6 @@ func init() {
 	reg(C+"EventManager", func(c *LibCtx, a []*Val) *Val {
 		return &Val{K: VPtr, Typ: c.resType(0), T: Const("ctx:eventManager", SInt), Ptr: &PtrInfo{Base: PObj, Root: ptrElem(c.resType(0))}}
 	})
-	reg(C+"KVStore", func(c *LibCtx, a []*Val) *Val {
-		c.x.note("raw KV store access (store not modelled at byte level)")
-		s := freshVal(c.resType(0), "kvstore", true)
-		c.st.Assume(Gt(s.Tag, Num(0)))
-		return s
-	})
 	reg(C+"TxBytes", func(c *LibCtx, a []*Val) *Val { return strVal(Const("ctx:txBytes", SStr), c.resType(0)) })
 	reg(pSdk+"UnwrapSDKContext", func(c *LibCtx, a []*Val) *Val { return opaqueVal(c.resType(0)) })
 	reg(pSdk+"WrapSDKContext", func(c *LibCtx, a []*Val) *Val {
